@@ -62,12 +62,16 @@ def base_model():
     return m
 
 
-def population_model(mode):
+def age_value(i):
+    return round(0.15 * i + 0.05, 3)
+
+
+def population_model(mode, cov_name='W'):
     if mode == 'pop':
         return chi.ComposedPopulationModel([chi.LogNormalModel(), chi.PooledModel(), chi.GaussianModel(centered=False),
                                             chi.PooledModel(n_dim=3)])
     return chi.ComposedPopulationModel([
-        chi.CovariatePopulationModel(chi.LogNormalModel(), chi.LinearCovariateModel(n_cov=1, cov_names=['W'])),
+        chi.CovariatePopulationModel(chi.LogNormalModel(), chi.LinearCovariateModel(n_cov=1, cov_names=[cov_name])),
         chi.PooledModel(n_dim=2), chi.HeterogeneousModel(), chi.PooledModel(n_dim=2)])
 
 
@@ -96,6 +100,12 @@ def replay_case(arg):
         return fails, cnt
     id_as_string = bool(rng.integers(2))
     frame = make_frame(data, id_as_string, rng)
+    if mode == 'popcov':
+        # a second covariate ("Age", one value per individual), mapped up front: the population model is swapped later for
+        # one that reads it (controller life cycle: a posterior built after the swap uses the NEW model's covariates)
+        extra = pd.DataFrame([{'Comment': 'age', 'ID': (('id%d' % i) if id_as_string else i), 'Time': np.nan, 'Observable': 'Age',
+                               'Value': age_value(i), 'Dose': np.nan, 'Duration': np.nan} for i in post['ids']])
+        frame = pd.concat([frame, extra], ignore_index=True)
     # the index of the frame carries no information (Controller: a dataset is a SEQUENCE of rows): default range index,
     # permuted labels (a frame that was sorted or shuffled), labels with gaps (a filtered frame), string labels
     ikind = (int(key, 16) // 11) % 4
@@ -123,7 +133,7 @@ def replay_case(arg):
                 mapping = dict(reversed(list(mapping.items())))
                 cnt['mapping_written_in_reverse_order'] = 1
             ctrl.set_data(frame, output_observable_dict=mapping,
-                          covariate_dict=({'W': 'Weight'} if mode == 'popcov' else None))
+                          covariate_dict=({'W': 'Weight', 'A': 'Age'} if mode == 'popcov' else None))
             scribble(ctrl, ('get_parameter_names', 'get_covariate_names', 'get_dosing_regimens'))
             n = ctrl.get_n_parameters()
             pri = [pints.GaussianLogPrior(1.0 + 0.05 * k, 1.5) for k in range(n)]
@@ -225,6 +235,22 @@ def replay_case(arg):
                     fail('Posterior', 'value', dict(label=label, got=[float(gv), float(gs)], expected=[float(ev), float(es)]))
                 elif not interp.close(np.asarray(gg, dtype=float), np.asarray(eg, dtype=float), rtol=1e-5, atol=1e-6):
                     fail('Posterior', 'gradient', dict(label=label, got=np.asarray(gg).tolist(), expected=np.asarray(eg).tolist()))
+            # ---- the population model is swapped on the SAME controller for one reading the other covariate ----------
+            if mode == 'popcov' and not fails:
+                ctrl.set_population_model(population_model(mode, 'A'))
+                ctrl.set_log_prior(pints.ComposedLogPrior(*pri))
+                got2 = ctrl.get_log_posterior()
+                pop2 = population_model(mode, 'A')
+                pop2.set_dim_names(lls[0].get_parameter_names())
+                covs2 = np.array([[age_value(i)] for i in post['ids']])
+                exp2 = chi.HierarchicalLogPosterior(chi.HierarchicalLogLikelihood(lls, pop2, covs2), pints.ComposedLogPrior(*pri))
+                with warnings.catch_warnings():
+                    warnings.simplefilter('error', RuntimeWarning)
+                    gv2, ev2 = got2(x.copy()), exp2(x.copy())
+                cnt['evaluations'] = cnt.get('evaluations', 0) + 2
+                cnt['population_model_swapped'] = 1
+                if list(got2.get_parameter_names()) != list(exp2.get_parameter_names()) or not interp.close(gv2, ev2, rtol=1e-7):
+                    fail('Posterior', 'value_after_population_model_swap', dict(got=float(gv2), expected=float(ev2)))
         if not frame.equals(frame_in):
             fail('NoInputWrite', 'data_frame_modified', None)
     except Exception as e:
